@@ -130,4 +130,3 @@ func ZZC09Alias() {
 	zzReach("alias-ok")
 	zzWitness("end")
 }
-
